@@ -310,7 +310,7 @@ theorem shape_prim_pu (env : Env) (l : PyLeaf) (o : Bool) : ShapePU env (.prim l
     obtain ⟨w, hw⟩ := ok_of_isSome hw
     rw [← htag] at hr hw
     simp only [Shape.write, primFieldWriter, hsft, hw] at he
-    simp only [Shape.read, primFieldReader, hsft, hr]
+    simp only [Shape.read, primFieldReaderT, hsft, hr]
     exact prim_pu env k flex _ _ w r hw hr v (primValueOk_mono env k o v hvo) bs he j hj
   · cases hwf
 
